@@ -484,6 +484,30 @@ func runC18(ctx *Ctx) error {
 				crashes[c0+k] = cr
 				bad++
 			}
+			// a forced schedule is deterministic by construction: a step that "was not reached in time" on a
+			// loaded machine must reproduce when the schedule is run once more, alone — otherwise it was the
+			// harness's own time-out, not the code (counted, not reported)
+			for k := c0; k < c1; k++ {
+				r := results[k]
+				if r == nil {
+					continue
+				}
+				if okk, _ := r["ok"].(bool); okk {
+					continue
+				}
+				if kind, _ := r["fail"].(string); kind == "leak" || kind == "torn" {
+					continue // end-state observations, not time-outs
+				}
+				rs2, crs2, err2 := c18RunChildren(ctx, c18Job{Mode: "forced", Scheds: scheds[k : k+1]}, 1, 5*time.Minute)
+				if err2 != nil || len(crs2) > 0 || rs2[0] == nil {
+					continue
+				}
+				if ok2, _ := rs2[0]["ok"].(bool); ok2 {
+					ctx.Rep.Count("forced: a non-conforming step did not reproduce when the schedule ran alone (harness time-out under load)")
+					results[k] = rs2[0]
+					bad--
+				}
+			}
 			ran = c1
 			if len(crashes) >= 30 || bad >= 30 || (search && (len(crashes) > 0 || bad > 0)) {
 				ctx.Rep.Note(fmt.Sprintf("forced schedules: stopped after %d of %d (plenty of failing schedules found)", ran, len(scheds)))
@@ -628,6 +652,27 @@ func runC18(ctx *Ctx) error {
 	cres, ccr, err := c18RunChildren(ctx, c18Job{Mode: "conn", Conns: conns}, len(conns), 3*time.Minute)
 	if err != nil {
 		return err
+	}
+	// like forced schedules: a write order is deterministic; a "step not reached" must reproduce alone
+	for i := range conns {
+		r := cres[i]
+		if r == nil || ccr[i] != nil {
+			continue
+		}
+		if okk, _ := r["ok"].(bool); okk {
+			continue
+		}
+		if kind, _ := r["fail"].(string); kind == "torn" {
+			continue
+		}
+		rs2, crs2, err2 := c18RunChildren(ctx, c18Job{Mode: "conn", Conns: conns[i : i+1]}, 1, 3*time.Minute)
+		if err2 != nil || len(crs2) > 0 || rs2[0] == nil {
+			continue
+		}
+		if ok2, _ := rs2[0]["ok"].(bool); ok2 {
+			ctx.Rep.Count("conn: a non-conforming step did not reproduce when the order ran alone (harness time-out under load)")
+			cres[i] = rs2[0]
+		}
 	}
 	for i := range conns {
 		c := &conns[i]
